@@ -29,7 +29,7 @@ namespace detail {
         chrono::day{31},
     };
 
-    if (m == chrono::month{2} and y.is_leap()) {
+    if (not m.ok() or (m == chrono::month{2} and y.is_leap())) {
         return chrono::day{29};
     }
     return lastDays[static_cast<unsigned>(m) - 1];
